@@ -580,6 +580,7 @@ Plan IoEngine::generate(uint64_t seed, uint64_t index, const std::string& tier)
     // some or none of their coordinates given, so that the approximate-coordinates stage has to work), observations
     // of every kind between them; a few of the observations refer to points that were never declared
     p.set("synth", "gkf"); p.set("name", "synthetic-gkf"); p.set("target", "local");
+    if (g.chance(1, 4)) p.seti("klat", (long long)g.range(1, 2));      // latitude (and ellipsoid) given: observations are reduced to the ellipsoid
     { int xf = -1; p.set("args", g.chance(2, 3) ? std::string("- --xml -") : gen_args(g, xf)); p.seti("xmlfile", xf); }
     auto stk = [&](const char* op, std::initializer_list<long long> a) { Step s; s.op = op; s.a = a; p.steps.push_back(s); };
     int nfix = (int)g.range(2, 3), nnew = (int)g.range(1, 3), np = nfix + nnew;
